@@ -58,6 +58,8 @@ def compute_domains_no_sub_cycle(domains: NDArray, parameters: NDArray) -> int:
         for i in range(n):
             if domains[i, MIN] == domains[i, MAX] and paths[i, PATH_END] == i:
                 j = domains[i, MIN]
+                if j == i and n > 1:
+                    return PROP_INCONSISTENCY  # a loop on a single vertex is a sub-cycle
                 end = paths[i, PATH_END] = paths[j, PATH_END]
                 start = paths[j, PATH_START] = paths[i, PATH_START]
                 paths[start, PATH_END] = end
